@@ -47,6 +47,7 @@ Section RO.
     destruct (read_header hdrdec (ReadOnly.q_maxh o) (drop (h_doff h) src)) as [[[[roots1 v1] rest1] used1]|e'] eqn:E3;
       [|inversion H; subst; apply (read_header_err_total hdrdec _ _ _ E3)].
     destruct (negb (v1 =? 1)); [inversion H; split; discriminate|].
+    destruct (negb (h_dsize h =? 0) && (h_dsize h <=? used1)); [discriminate|].
     split; [intros ->; revert H; apply li_scan_no_fuel; lia|eapply li_scan_not_panic; eassumption].
   Qed.
 
